@@ -140,6 +140,7 @@ func (session *HermesSession) Run(workingDir string, args []string, logID string
 		if OUTDAY > 365 {
 			OUTDAY = 365
 		}
+		outdayYear := 0
 		if OUTY >= g.ENDE {
 			g.ENDE = OUTY + 1
 		}
@@ -716,6 +717,12 @@ func (session *HermesSession) Run(workingDir string, args []string, logID string
 
 			// *********************** JAHRESAUSGABE ***************************
 			// *********************** ANNUAL OUTPUT ***************************
+			if outdayYear != 1900+g.J {
+				// the annual output date is a calendar date: its day of year differs between leap and non-leap years
+				outdayYear = 1900 + g.J
+				yearStr := fmt.Sprintf("%04d", outdayYear)
+				OUTDAY, _ = g.Datum(driConfig.AnnualOutputDate + yearStr[4-len(driConfig.EndDate[4:]):])
+			}
 			if g.TAG.Index+1 == OUTDAY {
 				g.AUS[JZ] = g.OUTSUM
 				g.SIC[JZ] = (g.SICKER - math.Abs(g.CAPSUM))
